@@ -983,14 +983,17 @@ class Facts:
 
         def base(p):
             return re.sub(r"#\d+$", "", p)
+        with open(kp) as fh:
+            allk = json.load(fh)
         try:
-            with open(kp) as fh:
-                allk = json.load(fh)
             self._specialise_flag_helpers(known, allk)
         except Exception as e:           # the specialisation is an optional convenience: never let it take the analysis down
             self.normalise_notes = getattr(self, "normalise_notes", []) + ["flag specialisation skipped: %r" % (e,)]
         new_from = self._hoist_into_conversions(known)
         keep_body = set()
+        new_type_known = allk.get("__adts__") or {}
+        new_type_known = {c: dict(new_type_known.get(c, {}), **(allk.get("__enums__") or {}).get(c, {})) for c in set(new_type_known) | set(allk.get("__enums__") or {})}
+        self.known_types = {c: set(v) for c, v in new_type_known.items()}
         for p, f in list(self.fns.items()):
             if f.crate in known:
                 g = desugar_bool_then(self, f)
@@ -1006,8 +1009,15 @@ class Facts:
                 tr = p.split(" as ", 1)[1].rsplit(">::", 1)[0]
                 tr_crate = tr.split("::", 1)[0].lstrip("<")
                 known_traits = {k.split(" as ", 1)[1].rsplit(">::", 1)[0] for k in known[f.crate] if k.startswith("<") and " as " in k}
-                if (tr_crate != f.crate or tr in known_traits) and p not in new_from:
+                # ... or the impl is for a type the confirmed tree does not have (a hand-written iterator that replaced a
+                # `map(closure)`): inlined where it is called directly, and kept as a body (std calls it through the trait)
+                self_ty = re.sub(r"<.*$", "", p[1:].split(" as ", 1)[0])
+                new_type = self_ty in self.adts and self_ty.split("::", 1)[0] == f.crate and self_ty not in new_type_known.get(f.crate, {}) \
+                    and not self_ty.endswith("}")
+                if (tr_crate != f.crate or tr in known_traits) and p not in new_from and not new_type:
                     continue
+                if new_type:
+                    keep_body.add(p)
             if f.j.get("exported"):
                 continue                      # new public API: a root of its own
             if f.j.get("pub") and f.j.get("reachable"):
@@ -1891,6 +1901,37 @@ class Prov:
                                     found = True
                                     for o2 in self.resolve_upvars(g, self._rec(g, rv["ops"][i], o.path, 0, set()), hops - 1):
                                         out.add(Origin(o2.kind, o2.key, o2.path, o2.via + o.via))
+            if not found:
+                out.add(o)
+        return out
+
+    def resolve_self_fields(self, fn, origins, hops=2):
+        """A method of a struct the confirmed tree does not have (a hand-written iterator / parameter object): origins that are
+        fields of `self` are replaced by what the struct's constructions put into those fields -- the same move as
+        resolve_upvars for a closure's captures (the struct is a closure written out by hand)."""
+        if hops <= 0 or fn.arg_count < 1:
+            return set(origins)
+        ty = re.sub(r"^&(mut )?", "", fn.locals[1])
+        base = re.sub(r"<.*$", "", ty)
+        adt = self.facts.adts.get(base)
+        if adt is None or base.split("::", 1)[0] != fn.crate or base in getattr(self.facts, "known_types", {}).get(fn.crate, ()):
+            return set(origins)
+        sites = [(g, st["rv"]) for g in self.facts.fns.values() if g.crate == fn.crate for blk in g.blocks if not blk["cleanup"]
+                 for st in blk["stmts"] if st["k"] == "assign" and st["rv"]["k"] == "agg" and st["rv"].get("adt") == base]
+        out = set()
+        for o in origins:
+            flds = [q for q in o.path if q != "*"]
+            if o.kind != "param" or o.key != 1 or not flds or not sites:
+                out.add(o)
+                continue
+            found = False
+            for g, rv in sites:
+                for nme, op in zip(rv.get("fields", []), rv["ops"]):
+                    if "." + str(nme) == flds[0]:
+                        found = True
+                        for o2 in self._rec(g, op, tuple(flds[1:]), 0, set()):
+                            out |= self.resolve_self_fields(g, {Origin(o2.kind, o2.key, o2.path, o2.via + o.via)}, hops - 1) \
+                                if g is not fn else {Origin(o2.kind, o2.key, o2.path, o2.via + o.via)}
             if not found:
                 out.add(o)
         return out
